@@ -41,6 +41,9 @@ structure SMon where
   lastTrack : AMap Nat := []
   /-- delivered, not yet settled (cumulatively acknowledged) document events: (ctx index, vb, seq) -/
   unsettled : List (Nat × Nat × Nat) := []
+  /-- highest acknowledged seq per vBucket in this session (cumulative acknowledgement: an event re-delivered at or
+      below it - after a rebalance or reopen - is settled on arrival, as in `C01.Inv`) -/
+  ackTop : AMap Nat := []
   /-- all delivered contexts: index ↦ (vb, seq, session) -/
   ctxs : List (Nat × Nat × Nat × Nat) := []
   nextCtx : Nat := 0
@@ -109,9 +112,38 @@ def smonStep (m : SMon) (s s' : St) (ts : List String) (real : String)
         | _, _ => "FAIL C02.unparsable"
       | _ => "ok"
     (m1, firstFail (c06 ++ c15))
+  | ["rebalance", _, _] =>
+    -- same stream object: contexts stay acknowledgeable; positions are re-loaded (new announcements), markers and
+    -- the C05 bookkeeping start afresh (a rebalance discards unsaved dirty marks exactly like a close)
+    let m0 : SMon := { m with announced := [], lastTrack := [], marker := [], dirtySettled := [] }
+    let m1 := words.foldl (fun acc w => match w with
+      | "openreq" :: vb :: t :: _ =>
+        match vb.toNat?, parseTuple t with
+        | some v, some (_ :: seq :: _) => addAnnounced acc v seq
+        | _, _ => acc
+      | _ => acc) m0
+    let c15 := words.map fun w => match w with
+      | "openreq" :: vb :: t :: _ =>
+        match vb.toNat?, parseTuple t with
+        | some v, some (_ :: seq :: _) =>
+          if seq ≤ (s.high.get? v).getD 0 then "ok" else "FAIL C15.start-beyond-high"
+        | _, _ => "FAIL C02.unparsable"
+      | _ => "ok"
+    (m1, firstFail (c06 ++ c15))
+  | ["reopen", vb] =>
+    -- C12 / C02: the re-request starts at the current (last announced) position of that vBucket
+    let v12 := words.map fun w => match w with
+      | "openreq" :: vb' :: t :: _ =>
+        match vb'.toNat?, parseTuple t with
+        | some v', some (_ :: q' :: _) =>
+          let top := ((m.announced.get? v').getD []).foldl max 0
+          if vb' == vb && q' == top then "ok" else "FAIL C12.reopen-not-from-position"
+        | _, _ => "FAIL C12.unparsable"
+      | _ => "ok"
+    (m, firstFail (c06 ++ v12))
   | ["crash"] | ["close"] =>
     -- the session is over: later acknowledgements act on a dead stream object (C04 speaks about the session)
-    ({ m with unsettled := [], marker := [], lastTrack := [], announced := [], dirtySettled := [],
+    ({ m with unsettled := [], marker := [], lastTrack := [], announced := [], dirtySettled := [], ackTop := [],
               sess := if ts == ["crash"] then m.sess + 1 else m.sess }, firstFail c06)
   | ["mk", vb, st, en] =>
     match vb.toNat?, st.toNat?, en.toNat? with
@@ -151,8 +183,11 @@ def smonStep (m : SMon) (s s' : St) (ts : List String) (real : String)
       let expected := s.isOpen && !reserved && inMarker && !skipped &&
         ((s.observers.get? v).map (fun o => !o.catchNeed && !o.closed)).getD false
       let v3 := if expected && delivered.isEmpty then "FAIL C03.complete" else "ok"
+      let settledOnArrival := q ≤ (m.ackTop.get? v).getD 0 && (m.ackTop.get? v).isSome
       let m1 := if delivered.isEmpty then m else
-        { m with ctxs := m.ctxs ++ [(m.nextCtx, v, q, m.sess)], unsettled := m.unsettled ++ [(m.nextCtx, v, q)], nextCtx := m.nextCtx + 1 }
+        { m with ctxs := m.ctxs ++ [(m.nextCtx, v, q, m.sess)],
+                 unsettled := if settledOnArrival then m.unsettled else m.unsettled ++ [(m.nextCtx, v, q)],
+                 nextCtx := m.nextCtx + 1 }
       -- an absorbed (reserved-key) event may track: announce it
       let m2 := words.foldl (fun acc w => match w with
         | "track" :: vb' :: t :: _ =>
@@ -201,7 +236,8 @@ def smonStep (m : SMon) (s s' : St) (ts : List String) (real : String)
           (m, if words.any (fun w => w.head? == some "track") then "FAIL C04.stale-ack-tracked" else "ok")
         else
         -- cumulative acknowledgement: settles every delivered event of the vBucket up to q
-        let m1 := { m with unsettled := m.unsettled.filter (fun (_, v', q') => !(v' == v && q' ≤ q)) }
+        let m1 := { m with unsettled := m.unsettled.filter (fun (_, v', q') => !(v' == v && q' ≤ q)),
+                           ackTop := m.ackTop.set v (max q ((m.ackTop.get? v).getD 0)) }
         let inRangeB := s.cfg.lo ≤ v && v ≤ s.cfg.hi
         let tracks := words.filter (fun w => w.head? == some "track")
         -- C04: out-of-range acknowledgements are ignored; tracked value = the event's own seq, never backwards
@@ -243,6 +279,7 @@ def smonStep (m : SMon) (s s' : St) (ts : List String) (real : String)
           if KF.C01_overtake caseStart caseOps then
             "KF F3 an absorbed event moved the position past a delivered-but-unacknowledged event and the save persisted it"
           else if !KF.srvMonotone caseStart caseOps then "ok"   -- the server broke its own contract (seqnos not increasing): outside the quantifier
+          else if KF.C01_resetJump caseStart caseOps then "ok"  -- a rebalance took the latest-reset start over an unsettled event (excluded by `C01b_partial`, by design of auto-reset latest)
           else "FAIL C01.stored-past-unsettled"
         else "ok"
       | _ => "ok"
